@@ -11,7 +11,7 @@ import gen as G
 VMAX = 50  # symbolic EDB values range over [-VMAX, VMAX] (keeps i64/f64 arithmetic exact for depth<=3 terms)
 
 TIERS = {
-    "quick": {"rows": 2, "rows_flat": 2, "k": 3, "timeout_ms": 10000, "n_seeded": 20, "n_templates": 32, "budget_s": 480},
+    "quick": {"rows": 2, "rows_flat": 2, "k": 3, "timeout_ms": 10000, "n_seeded": 40, "n_templates": 64, "budget_s": 480},
     "thorough": {"rows": 3, "rows_flat": 3, "k": 4, "timeout_ms": 120000, "n_seeded": 80, "n_templates": 10 ** 6,
                  "budget_s": 5400},
 }
@@ -121,6 +121,8 @@ class Run:
     def finish(self, level, extra_cov, assumptions):
         self.bridge.close()
         st = self.stats
+        if getattr(st, "solver_disagreements", None):
+            self.inconclusive.append(f"z3 and cvc5 disagree on {len(st.solver_disagreements)} queries")
         if st.model_mismatches:
             vc.ensure_dirs()
             p = os.path.join(vc.REPLAY, f"model-mismatch-{self.prop}.json")
@@ -148,6 +150,9 @@ class Run:
             "unsupported_by_encoder": st.unsupported,
             "skipped_undecided": self.skipped[:30],
             "k_incomplete_cases": st.k_incomplete,
+            "queries_crosschecked_with_cvc5": getattr(st, "crosschecked", 0),
+            "cvc5_unknown": getattr(st, "crosscheck_unknown", 0),
+            "solver_disagreements": len(getattr(st, "solver_disagreements", [])),
             "time_budget_s": self.cfg["budget_s"],
             "budget_exhausted_after_programs": self.budget_hit,
             "bounds": {"rows_per_relation": self.cfg["rows"], "rows_flat": self.cfg["rows_flat"],
@@ -199,8 +204,8 @@ def corpus(run, kinds, with_templates=False, rec_templates=0):
             ts = ts[vc.seed() % step::step]
         out.extend((t, "template") for t in ts)
     n = run.cfg["n_seeded"]
-    tries = 0
-    while len([1 for _, k in out if k != "template"]) < n and tries < n * 5:
+    tries = made = 0
+    while made < n and tries < n * 5:
         tries += 1
         kind = kinds[tries % len(kinds)]
         try:
@@ -208,6 +213,7 @@ def corpus(run, kinds, with_templates=False, rec_templates=0):
         except Exception:
             continue
         out.append((p, k))
+        made += 1
     # interleave the families so that a run cut short by its time budget still touches all of them
     random.Random(vc.seed() + 99).shuffle(out)
     return out
@@ -945,6 +951,8 @@ def run_c05(run):
 
 def run_property(prop, tier):
     ok, out, _ = ke.build_native()
+    if tier == "thorough" and P.CROSSCHECK_BUDGET["n"] == 0:
+        P.CROSSCHECK_BUDGET["n"] = 40
     run = Run(prop, tier)
     if not ok:
         run.inconclusive.append("native build of /repo (feature verif-hooks) failed: " + out[-400:].replace("\n", " | "))
